@@ -87,7 +87,8 @@ def gen_antenna(rng, families=None, max_pulses=25, ground=None, len_jitter=(0.7,
     elif fam == 'monopole':
         n = rng.randint(4, 12)
         x, y = rng.uniform(-1, 1) * lam, rng.uniform(-1, 1) * lam
-        tilt = rng.uniform(0, 0.3)
+        # from vertical down to an elevation of about 35 degrees (the rules ask for 20 degrees or more)
+        tilt = rng.uniform(0, 0.3) if rng.random() < 0.5 else rng.uniform(0.3, 1.4)
         top = np.array([x + tilt * seg * n, y, seg * n])
         if rng.random() < 0.5:
             W([x, y, 0.0], top, n)
